@@ -118,13 +118,13 @@ func parseV1Header(buf []byte) (*Header, error) {
 			dest.IP = ip
 		case 2:
 			port, err := strconv.Atoi(string(buf))
-			if err != nil {
+			if err != nil || port < 0 || port > 65535 {
 				return fmt.Errorf("invalid port '%s' at pos '%d'", buf, pos)
 			}
 			src.Port = port
 		case 3:
 			port, err := strconv.Atoi(string(buf))
-			if err != nil {
+			if err != nil || port < 0 || port > 65535 {
 				return fmt.Errorf("invalid port '%s' at pos '%d'", buf, pos)
 			}
 			dest.Port = port
